@@ -155,8 +155,16 @@ def run_contracts(ctx, contracts, registry, workloads=(), concrete_env=None, mon
     updating = bool(os.environ.get("VERIF_UPDATE_LEDGER"))
     new_ledger = {}
     lost_functions = set()
-    for c in contracts:
-        if c.trusted or c.path is None:
+    seen_trusted = set()
+    pool = list(contracts)
+    for src in (getattr(registry, "by_target", {}), getattr(registry, "methods", {}), getattr(registry, "functions", {})):
+        pool.extend(v for v in src.values() if isinstance(v, Contract))
+    for c in list(pool):
+        pool.extend(v for v in getattr(c, "calls", {}).values() if isinstance(v, Contract))
+        pool.extend(v for v in getattr(c, "globals", {}).values() if isinstance(v, Contract))
+    for c in pool:
+        if (c.trusted or c.path is None) and id(c) not in seen_trusted:
+            seen_trusted.add(id(c))
             ctx.trust(f"assumed contract: {c.target} ({c.notes or 'library/external'})")
     todo = [c for c in contracts if not (c.trusted or c.path is None)]
     outs = verify_many(todo, registry, timeout)
